@@ -125,7 +125,7 @@ def table_strategy():
     @st.composite
     def case(draw):
         ncont = draw(st.integers(1, 3))
-        b = draw(st.integers(1, 60))
+        b = draw(st.one_of(st.integers(1, 60), st.integers(1, 60), st.integers(61, 250), st.sampled_from([49, 98, 103, 107, 161, 196])))
         s = draw(st.one_of(st.none(), st.integers(1, b)))
         contigs = []
         for i in range(ncont):
